@@ -50,7 +50,8 @@ OUT_OF_REACH = ['GSS messages', 'SOCKS and agent parsers are exercised in '
                 'C20/C05 workloads, not fuzzed here']
 REQUIRED = ['raw_inputs', 'peer_messages', 'parser_calls',
             'meter_windows', 'bystander_checked', 'owner_checked',
-            'extreme_fields', 'impossible_keys', 'sftp_extreme_requests']
+            'extreme_fields', 'impossible_keys', 'sftp_extreme_requests',
+            'der_sweep_inputs']
 BUDGET_S = {'quick': 300, 'thorough': 3400}
 CASE_TIMEOUT_S = 60
 
@@ -115,6 +116,10 @@ def gen_cases(tier, seed):
     for i in range(nsftp):
         cases.append({'kind': 'sftp', 'version': rng.choice([3, 3, 4, 6]),
                       'n': 8, 'cseed': rng.randrange(1 << 30)})
+
+    # exhaustive small scope for the DER decoder: every input of up to two
+    # bytes, every tag with 0 / 1 content bytes inside a SEQUENCE
+    cases.append({'kind': 'der_sweep', 'cseed': 0})
 
     for i in range(npar):
         cases.append({'kind': 'parser', 'n': 250 if tier == 'quick' else 400,
@@ -968,6 +973,50 @@ def _impossible_keys(rng):
     return out
 
 
+def _run_der_sweep(case, mon, viol, info):
+    from asyncssh.asn1 import der_decode, ASN1DecodeError
+    from asyncssh.public_key import KeyImportError, KeyEncryptionError
+    meter = work.WorkMeter(c0=300_000, c1=300)
+    meter.install()
+    stats = {}
+    try:
+        inputs = [b''] + [bytes([a]) for a in range(256)] + \
+            [bytes([a, b]) for a in range(256) for b in range(256)]
+        for tag in range(256):
+            for content in (b'', b'\x00', b'\x07', b'\x08', b'\xff',
+                            b'\x00\x00'):
+                inner = bytes([tag, len(content)]) + content
+                inputs.append(inner)
+                inputs.append(bytes([0x30, len(inner)]) + inner)
+        for data in inputs:
+            _call('der_decode', der_decode, data, (ASN1DecodeError,), meter,
+                  mon, viol, stats)
+        # the same oddities where a key importer meets them: a
+        # SubjectPublicKeyInfo / PKCS#8 shell around small BIT / OCTET STRINGs
+        rsa_oid = bytes.fromhex('06092a864886f70d0101010500')
+        ec_oid = bytes.fromhex('06072a8648ce3d020106082a8648ce3d030107')
+        for alg in (rsa_oid, ec_oid):
+            algseq = bytes([0x30, len(alg)]) + alg
+            for tail in (b'\x03\x00', b'\x03\x01\x00', b'\x03\x01\x08',
+                         b'\x04\x00', b'\x03\x02\x00\x00', b'\x05\x00'):
+                spki = bytes([0x30, len(algseq) + len(tail)]) + algseq + tail
+                _call('import_public_key', asyncssh.import_public_key, spki,
+                      (KeyImportError,), meter, mon, viol, stats)
+                p8 = b'\x02\x01\x00' + algseq + tail
+                p8 = bytes([0x30, len(p8)]) + p8
+                _call('import_private_key', asyncssh.import_private_key, p8,
+                      (KeyImportError, KeyEncryptionError), meter, mon, viol,
+                      stats)
+        mon['der_sweep_inputs'] += len(inputs)
+    finally:
+        meter.disarm()
+        meter.uninstall()
+    mon['meter_windows'] += meter.windows
+    for v in meter.violations:
+        viol.append({'mechanism': v['kind'], 'detail': v})
+    info['parser_stats'] = stats
+
+
 def _run_parser(case, mon, viol, info):
     rng = random.Random(case['cseed'])
     seeds = _seeds()
@@ -1227,6 +1276,8 @@ def run_case(case):
             _run_raw(case, mon, viol, info)
         elif case['kind'] == 'sftp':
             _run_sftp(case, mon, viol, info)
+        elif case['kind'] == 'der_sweep':
+            _run_der_sweep(case, mon, viol, info)
         elif case['kind'] == 'peer':
             _run_peer(case, mon, viol, info)
         else:
